@@ -10,8 +10,10 @@ Definition def_ok (codec_ok : chandef -> bool) (cd : chandef) : bool :=
   forallb (fun s => negb (snd s =? 0)) (cd_streams cd) &&
   codec_ok cd.
 
-Definition unique_stream_ids (defs : gmap Z chandef) : list Z :=
-  remove_dups (flat_map (fun kv => map fst (cd_streams (snd kv))) (map_to_list defs)).
+(* the set of stream ids, as the key set of a map built by insertion (linear-logarithmic under vm_compute) *)
+Definition unique_stream_set (defs : gmap Z chandef) : gmap Z unit :=
+  fold_left (fun m sid => <[sid := tt]> m) (flat_map (fun kv => map fst (cd_streams (snd kv))) (map_to_list defs)) ∅.
+Definition unique_stream_ids (defs : gmap Z chandef) : list Z := map fst (map_to_list (unique_stream_set defs)).
 
 (* VerifyChannelDefinitions(codecs, defs) == nil; codec_ok = the Verify of the format's report codec *)
 Definition verify_defs (codec_ok : chandef -> bool) (defs : gmap Z chandef) : bool :=
